@@ -394,7 +394,14 @@ def token_spec(rng, idx):
     # the documented top-level "namespace:" field: every declaration lives in an initial namespace, and
     # wrapping starts below the library node (library.wrap_namespace)
     topns = "zq%dtop" % idx if rng.random() < 0.3 else None
-    return {"lib": lib, "c": wc, "fortran": wf, "entries": entries, "topns": topns}
+    # options that make generated bookkeeping visible in the output (declaration indices in debug
+    # comments) or make an emitter add declarations of its own (Python: a constructor for every struct)
+    extra = {}
+    if rng.random() < 0.4:
+        extra["debug_index"] = True
+    if rng.random() < 0.5:
+        extra["PY_struct_arg"] = "class"
+    return {"lib": lib, "c": wc, "fortran": wf, "entries": entries, "topns": topns, "extra_options": extra}
 
 
 def render_token_library(spec, wp, wl):
@@ -404,6 +411,8 @@ def render_token_library(spec, wp, wl):
     if spec.get("topns"):
         lines.append("namespace: %s" % spec["topns"])
     lines += ["options:", "  debug: True"]
+    for k, v in sorted((spec.get("extra_options") or {}).items()):
+        lines.append("  %s: %s" % (k, v))
     for lang in LANGS:
         lines.append("  wrap_%s: %s" % (lang, lf[lang]))
     lines.append("declarations:")
